@@ -147,6 +147,11 @@ try:
     HANDLERS.update(impl_fol.HANDLERS)
 except ImportError:
     pass
+try:
+    import impl_quant
+    HANDLERS.update(impl_quant.HANDLERS)
+except ImportError:
+    pass
 
 
 def main():
